@@ -46,6 +46,11 @@ class CleanHooks(QHooks):
         v = E.get(k)
         return next(iter(v)) if v else d
 
+    def materialize(self, E, path):
+        if path == 'G:line.s':
+            return fs(('&', 'G:line.s[0]'))      # so that a pointer walking the request indexes the same bytes
+        return TOP
+
     def materialize_split(self, E, path):
         if path.startswith('G:line.s['):
             # long requests exist to exercise the length rule: digit-only id there; every byte
